@@ -12,6 +12,7 @@ syntax "sim_leaf" : tactic
 macro_rules | `(tactic| sim_leaf) => `(tactic| first
   | exact sim_pure _ trivial
   | exact sim_throw _
+  | exact sim_ofExcept _ (fun _ _ => trivial)
   | exact sim_weaken sim_size (fun _ _ => trivial)
   | exact sim_has _
   | exact sim_names
@@ -20,7 +21,7 @@ macro_rules | `(tactic| sim_leaf) => `(tactic| first
   | exact sim_setObs _ _ _
   | exact sim_update _ _
   | exact sim_remove _
-  | exact sim_create _ (.scalar _) trivial)
+  | exact sim_create _ _)
 
 /-- structural descent through bind / if / loops -/
 macro "sim_auto" : tactic => `(tactic| repeat (first
@@ -41,18 +42,29 @@ theorem sim_addListToAF (name : String) (arr : List V) :
   cases arr[i]? <;> sim_auto
 macro_rules | `(tactic| sim_leaf) => `(tactic| exact sim_addListToAF _ _)
 
-theorem sim_setItem (name : String) (init : Init V)
-    (hok : match init with | .scalar _ => True | .list l => n ≤ l.length) :
+theorem sim_setItem (name : String) (init : Init V) :
     Sim n (fun _ => True) (setItem (σ := St V) name init) (setItem (σ := ATab V) name init) := by
   unfold setItem
   refine sim_bind (sim_has name) (fun b _ => ?_)
-  exact sim_ite _ (sim_update name init) (sim_create name init hok)
+  exact sim_ite _ (sim_update name init) (sim_create name init)
 
 theorem sim_setCoordFromAF (o : Ops V) (c name : String) :
     Sim n (fun _ => True) (setCoordFromAF (σ := St V) o c name) (setCoordFromAF (σ := ATab V) o c name) := by
   unfold setCoordFromAF
   sim_auto
 macro_rules | `(tactic| sim_leaf) => `(tactic| exact sim_setCoordFromAF _ _ _)
+
+theorem sim_dist2D (o : Ops V) (i j : Nat) :
+    Sim n (fun _ => True) (dist2DOp (σ := St V) o i j) (dist2DOp (σ := ATab V) o i j) := by
+  unfold dist2DOp
+  sim_auto
+macro_rules | `(tactic| sim_leaf) => `(tactic| exact sim_dist2D _ _ _)
+
+theorem sim_speedBetween (o : Ops V) (i j : Nat) :
+    Sim n (fun _ => True) (speedBetweenOp (σ := St V) o i j) (speedBetweenOp (σ := ATab V) o i j) := by
+  unfold speedBetweenOp
+  sim_auto
+macro_rules | `(tactic| sim_leaf) => `(tactic| exact sim_speedBetween _ _ _)
 
 theorem sim_evalAlgo (o : Ops V) (alg : Algo V) (i : Nat) :
     Sim n (fun _ => True) (evalAlgo (σ := St V) o alg i) (evalAlgo (σ := ATab V) o alg i) := by
@@ -64,6 +76,8 @@ theorem sim_addAF (o : Ops V) (alg : Algo V) (name : String) :
   unfold addAF
   sim_auto
 
+macro_rules | `(tactic| sim_leaf) => `(tactic| exact sim_addAF _ _ _)
+
 theorem sim_unaryTemp (o : Ops V) (k : UOp) (inp : String) (m : Nat) :
     Sim n (fun _ => True) (unaryTemp (σ := St V) o k inp m) (unaryTemp (σ := ATab V) o k inp m) := by
   cases k <;> (unfold unaryTemp; sim_auto)
@@ -73,6 +87,8 @@ theorem sim_unaryVoid (o : Ops V) (k : UOp) (inp out : String) :
     Sim n (fun _ => True) (unaryVoid (σ := St V) o k inp out) (unaryVoid (σ := ATab V) o k inp out) := by
   unfold unaryVoid
   sim_auto
+
+macro_rules | `(tactic| sim_leaf) => `(tactic| exact sim_unaryVoid _ _ _ _)
 
 theorem sim_binaryVoid (o : Ops V) (k : BOp) (in1 in2 out : String) :
     Sim n (fun _ => True) (binaryVoid (σ := St V) o k in1 in2 out) (binaryVoid (σ := ATab V) o k in1 in2 out) := by
@@ -85,6 +101,43 @@ theorem sim_scalarVoid (o : Ops V) (k : SOp) (inp : String) (arg : V) (out : Str
   unfold scalarVoid
   sim_auto
 macro_rules | `(tactic| sim_leaf) => `(tactic| exact sim_scalarVoid _ _ _ _ _)
+
+theorem sim_applyVoid (o : Ops V) (f : V → Except Err V) (inp out : String) :
+    Sim n (fun _ => True) (applyVoid (σ := St V) o f inp out) (applyVoid (σ := ATab V) o f inp out) := by
+  unfold applyVoid
+  sim_auto
+macro_rules | `(tactic| sim_leaf) => `(tactic| exact sim_applyVoid _ _ _ _)
+
+theorem sim_scalarDivider (o : Ops V) (inp : String) (arg : V) (out : String) :
+    Sim n (fun _ => True) (scalarDivider (σ := St V) o inp arg out) (scalarDivider (σ := ATab V) o inp arg out) := by
+  unfold scalarDivider
+  sim_auto
+
+theorem sim_scalarRevDivider (o : Ops V) (inp : String) (arg : V) (out : String) :
+    Sim n (fun _ => True) (scalarRevDivider (σ := St V) o inp arg out) (scalarRevDivider (σ := ATab V) o inp arg out) := by
+  unfold scalarRevDivider
+  sim_auto
+
+theorem sim_shiftCircular (o : Ops V) (inp : String) (arg : V) (out : String) :
+    Sim n (fun _ => True) (shiftCircular (σ := St V) o inp arg out) (shiftCircular (σ := ATab V) o inp arg out) := by
+  unfold shiftCircular
+  sim_auto
+
+theorem sim_scalarKind (o : Ops V) (k : SKind) (inp : String) (arg : V) (out : String) :
+    Sim n (fun _ => True) (scalarKind (σ := St V) o k inp arg out) (scalarKind (σ := ATab V) o k inp arg out) := by
+  cases k with
+  | plain s => exact sim_scalarVoid o s inp arg out
+  | divider => exact sim_scalarDivider o inp arg out
+  | revDivider => exact sim_scalarRevDivider o inp arg out
+  | shift => exact sim_shiftCircular o inp arg out
+  | shiftRev => exact sim_shiftCircular o inp _ out
+macro_rules | `(tactic| sim_leaf) => `(tactic| exact sim_scalarKind _ _ _ _ _)
+
+theorem sim_aggOp (o : Ops V) (f inp : String) :
+    Sim n (fun _ => True) (aggOp (σ := St V) o f inp) (aggOp (σ := ATab V) o f inp) := by
+  unfold aggOp
+  sim_auto
+macro_rules | `(tactic| sim_leaf) => `(tactic| exact sim_aggOp _ _ _)
 
 theorem sim_sumOp (o : Ops V) (inp : String) :
     Sim n (fun _ => True) (sumOp (σ := St V) o inp) (sumOp (σ := ATab V) o inp) := by
@@ -107,10 +160,39 @@ theorem sim_reverser (o : Ops V) (inp out : String) :
   unfold reverser
   refine sim_bind sim_size (fun k hk => ?_)
   refine sim_bind (sim_mapL (Q := fun _ => True) _ (fun i _ => sim_getObs o inp _)) (fun temp ht => ?_)
-  refine sim_setItem out (.list temp) ?_
-  simp only [List.length_range] at ht
-  simp only
-  omega
+  exact sim_setItem out (.list temp)
+
+theorem sim_logVoid (o : Ops V) (inp out : String) :
+    Sim n (fun _ => True) (logVoid (σ := St V) o inp out) (logVoid (σ := ATab V) o inp out) := by
+  unfold logVoid
+  refine sim_bind sim_size (fun k hk => ?_)
+  refine sim_bind (sim_mapL (Q := fun _ => True) _ (fun i _ => ?_)) (fun temp ht => ?_)
+  · sim_auto
+  exact sim_setItem out (.list temp)
+
+theorem sim_runVFn (o : Ops V) (f : VFn) (inp out : String) :
+    Sim n (fun _ => True) (runVFn (σ := St V) o f inp out) (runVFn (σ := ATab V) o f inp out) := by
+  cases f with
+  | integrator => unfold runVFn; exact sim_bind (sim_unaryVoid o _ inp out) (fun _ _ => sim_pure _ trivial)
+  | differentiator => unfold runVFn; exact sim_bind (sim_unaryVoid o _ inp out) (fun _ _ => sim_pure _ trivial)
+  | log => unfold runVFn; exact sim_bind (sim_logVoid o inp out) (fun _ _ => sim_pure _ trivial)
+  | apply name => unfold runVFn; sim_auto
+macro_rules | `(tactic| sim_leaf) => `(tactic| exact sim_runVFn _ _ _ _)
+
+theorem sim_absCurvOp (o : Ops V) :
+    Sim n (fun _ => True) (absCurvOp (σ := St V) o) (absCurvOp (σ := ATab V) o) := by
+  unfold absCurvOp
+  sim_auto
+
+theorem sim_estSpeedOp (o : Ops V) :
+    Sim n (fun _ => True) (estSpeedOp (σ := St V) o) (estSpeedOp (σ := ATab V) o) := by
+  unfold estSpeedOp
+  sim_auto
+
+theorem sim_segmentOp (o : Ops V) (inp out : String) (thr : V) :
+    Sim n (fun _ => True) (segmentOp (σ := St V) o inp out thr) (segmentOp (σ := ATab V) o inp out thr) := by
+  unfold segmentOp
+  sim_auto
 
 theorem sim_hasSV (sv : SV V) : Sim n (fun _ => True) (hasSV (σ := St V) sv) (hasSV (σ := ATab V) sv) := by
   cases sv <;> (unfold hasSV; sim_auto)
